@@ -118,8 +118,18 @@ func cutBytes(b []byte, c, p int64) []byte {
 	return append(out, make([]byte, p)...)
 }
 
+func scratchBase() string {
+	if st, e := os.Stat("/dev/shm"); e == nil && st.IsDir() {
+		return "/dev/shm"
+	}
+	return ""
+}
+
 func run(c Sx) Result {
 	l := AsList(c)
+	if AsInt(l[0]) == 9 {
+		return runFreezer(c)
+	}
 	isSnappy := AsBool(l[0])
 	maxsz := uint32(AsU64(l[1]))
 	ops := AsList(l[2])
@@ -652,6 +662,9 @@ func gen(r *Rng, tier string, emit func(c Sx)) {
 	for i := 0; i < nh/3; i++ {
 		emit(genCase(r.Fork(), ncuts, true))
 	}
+	for i := 0; i < nh; i++ {
+		emit(genFreezerCase(r.Fork()))
+	}
 }
 
 func main() {
@@ -661,7 +674,10 @@ func main() {
 			"freezer table with maxFileSize 50-200, raw or snappy, plus 48 (quick) / 90 (thorough) crash cuts: index and data files cut at " +
 			"durable + selector mod (current-durable+1) bytes, optional zero-filled extension, last-synced or current metadata file; an adversarial " +
 			"stream adds truncations below the tail / above the head, empty items and the all-empty-items (all-zero index) table. " +
-			"Non-trivial = at least one cut falls strictly between the durable and the current length of a file.",
+			"Non-trivial = at least one cut falls strictly between the durable and the current length of a file. " +
+			"A second stream (kind 9, Go oracle only, no Coq model) runs ModifyAncients/SyncAncient/TruncateTail/TruncateHead histories on a Freezer with 2-3 tables " +
+			"in one tail group and reopens it from cross-table crash states (each table as on disk, or as at the last SyncAncient when that is still a possible state); " +
+			"non-trivial there = the tables' index lengths differ in the crash state.",
 		Gen: gen,
 		Run: run,
 	})
